@@ -53,4 +53,12 @@ Offline ==
     <<"get", "0", "0", "0", "-1">>, <<"get", "0", "1", "-1", "-1">>, <<"get", "HO", "1", "0", "-1">>, <<"get", "TO", "1", "-1", "-1">>,
     <<"gat", "0", "0", "0", "zero">>, <<"gat", "HO", "1", "-1", "tree1">>,
     <<"putnew", "0", "-1">>, <<"putnew", "1", "0">>, <<"drain">> }
+\* multi-row blocks (orders 7, 8) next to sub-row blocks: failing targeted allocations and
+\* failing frees of partly held blocks must leave no trace
+Rows ==
+  { <<"gat", "6", "0", "-1", "f:0">>, <<"gat", "6", "0", "0", "f:128">>, <<"gat", "0", "0", "-1", "f:192">>,
+    <<"gat", "0", "0", "0", "f:70">>, <<"gat", "7", "0", "-1", "f:128">>, <<"gat", "7", "0", "0", "f:256">>,
+    <<"gat", "7", "0", "-1", "f:0">>, <<"gat", "8", "0", "-1", "f:256">>, <<"gat", "8", "0", "0", "f:0">>,
+    <<"putraw", "128", "7">>, <<"putraw", "0", "7">>, <<"putraw", "256", "8">>, <<"putraw", "256", "7">>,
+    <<"putnew", "0", "-1">> }
 =============================================================================
